@@ -82,6 +82,13 @@ type Transport struct {
 
 	UseDeadlines bool
 	readDeadline time.Time
+	// virtual clock mode: read deadlines are honoured against a clock only the controller advances (no sleeping).
+	// The library computes deadlines from the wall clock (time.Now().Add(ReadTimeout)); what counts here is how far
+	// ahead of the wall clock the deadline was when it was set: it passes once the controller has advanced that much.
+	Virtual      bool
+	vnow         time.Duration
+	vdeadline    time.Duration // 0: none
+	DeadlineSets []time.Duration // every SetReadDeadline call: virtual time of the call
 
 	// outbound
 	writes          []*WriteRec
@@ -119,6 +126,10 @@ func (t *Transport) Read(p []byte) (int, error) {
 		if t.closed {
 			t.parked = false
 			return 0, errScriptedClosed
+		}
+		if t.Virtual && t.vdeadline > 0 && t.vnow >= t.vdeadline {
+			t.parked = false
+			return 0, timeoutErr{} // like a real net.Conn: a passed deadline fails the Read, data or not
 		}
 		if len(t.pieces) > 0 {
 			n := copy(p, t.pieces[0])
@@ -226,6 +237,14 @@ func (t *Transport) RemoteAddr() net.Addr        { return scriptedAddr{} }
 func (t *Transport) SetDeadline(time.Time) error { return nil }
 func (t *Transport) SetReadDeadline(d time.Time) error {
 	t.mu.Lock()
+	if t.Virtual {
+		t.DeadlineSets = append(t.DeadlineSets, t.vnow)
+		if d.IsZero() {
+			t.vdeadline = 0
+		} else {
+			t.vdeadline = t.vnow + time.Until(d)
+		}
+	}
 	t.readDeadline = d
 	t.cond.Broadcast()
 	t.mu.Unlock()
@@ -269,6 +288,14 @@ func (t *Transport) NFailedWrites() int {
 }
 
 // ---- script side
+
+// Advance moves the virtual clock (Virtual mode): a Read parked beyond its deadline fails with a timeout.
+func (t *Transport) Advance(d time.Duration) {
+	t.mu.Lock()
+	t.vnow += d
+	t.cond.Broadcast()
+	t.mu.Unlock()
+}
 
 // ArmDeadlines: from now on a parked Read fails with a timeout once the read deadline set by the library has passed.
 func (t *Transport) ArmDeadlines() {
